@@ -356,6 +356,9 @@ func c20Scenarios(tier string) []*h.Scenario {
 		{"age-prune-vs-locked-get", 10 * time.Second, 0, nil, []string{"a"}, 12 * time.Second, [][]string{{"getlocked a"}}},
 		{"overflow-vs-locked-get", 0, 2, nil, []string{"a", "b"}, 0, [][]string{{"set c"}, {"getlocked a"}}},
 		{"failing-cleanup-overflow", 0, 2, []string{"a"}, []string{"a", "b"}, 0, [][]string{{"set c"}, {"del b"}}},
+		// the pruning goroutine of the first overflow may find nothing left to do; later overflows still have to be pruned
+		{"overflow-vs-delete-then-more-insertions", 0, 2, nil, []string{"a", "b"}, 0, [][]string{{"set c", "set d", "set e"}, {"del b"}}},
+		{"overflow-vs-deleteall-then-more-insertions", 0, 2, nil, []string{"a", "b"}, 0, [][]string{{"set c", "set d", "set e", "set f"}, {"delall"}}},
 	}
 	if tier == "thorough" {
 		list = append(list,
